@@ -349,6 +349,18 @@ def _events_for(p, stream_factory):
     return paths
 
 
+def _blob_fm(p):
+    """client foreign model + base64 on constants (standard library on constants)."""
+    from .c08 import _b64_model
+    base = client_opts(p)["foreign_model"]
+
+    def fm(it, callee, args, kw):
+        r = _b64_model(it, callee, args, kw)
+        return r if r is not None else base(it, callee, args, kw)
+
+    return fm
+
+
 def rule_iff(ctx):
     p = ctx.p
     f = p.cls("indi.client.elements.Element").find_method("process_message")
@@ -379,6 +391,37 @@ def rule_iff(ctx):
                 if sorted(upd) != sorted(expect) or len(upd) != len(expect):
                     ctx.violated("C16.IFF", f.short, f"{kind}: '{title}' raises events {upd}, expected exactly {expect}", fi=f, text=f"iff:{title}", witness=f"{kind}: def(A={v0},B={v0},Ok) then set({children}, {state})")
                     bad = True
+    # BLOB values are objects (payload + format): a new payload, or the same payload under another format, is a change
+    import base64 as _b64
+    def b64(x):
+        return _b64.b64encode(x).decode("ascii")
+    blob_cases = [("payload changes", (b"frame-1", ".fits"), (b"frame-2", ".fits")), ("only the format changes", (b"frame-1", ".fits"), (b"frame-1", ".fits.fz")), ("empty payload, format changes", (b"", ".a"), (b"", ".b")), ("same length, other bytes", (b"abc", ".x"), (b"abd", ".x"))]
+    for title, (p0, f0), (p1, f1) in blob_cases:
+        n += 1
+        def blobpart(pl, fm):
+            return part(p, "OneBLOB", "A", b64(pl), size=str(len(pl)), format=fm)
+        paths = feed(p, lambda it: make_client(p, [make_callback(p, label="all")], it=it),
+                     lambda: [msg(p, "DefBLOBVector", "D", "V1", [part(p, "DefBLOB", "A", None)], state="Ok"),
+                              msg(p, "SetBLOBVector", "D", "V1", [blobpart(p0, f0)], state="Ok"),
+                              msg(p, "SetBLOBVector", "D", "V1", [blobpart(p1, f1)], state="Ok")],
+                     {"foreign_model": _blob_fm(p), "instantiate": lambda ci: ci.module.name.startswith("indi.client.") or ci.qualname == "indi.device.values.BLOB"})
+        ctx.paths_enumerated += len(paths)
+        if len(paths) != 1 or paths[0].outcome != "return":
+            ctx.undecided("C16.IFF", f.short + "[BLOB]", f"BLOB: '{title}' not decided by constant evaluation ({len(paths)} paths, {paths[0].outcome if paths else None})", fi=f)
+            bad = True
+            continue
+        evs_ = [e for _, e, _ in delivered_events(paths[0])]
+        cut = max([i_ for i_, e in enumerate(evs_) if isinstance(e, Obj) and e.cls is not None and e.cls.name == "DefinitionUpdate"] + [-1])
+        vu = [e for e in evs_[cut + 1:] if isinstance(e, Obj) and e.cls is not None and e.cls.name == "ValueUpdate"]
+        def desc(v):
+            if isinstance(v, Obj) and v.cls is not None and v.cls.name == "BLOB":
+                return (show(v.attrs.get("binary")), show(v.attrs.get("format")))
+            return show(v)
+        chain = [(desc(e.attrs.get("old_value")), desc(e.attrs.get("new_value"))) for e in vu]
+        want = [("None", (repr(p0), repr(f0))), ((repr(p0), repr(f0)), (repr(p1), repr(f1)))]
+        if chain != want:
+            ctx.violated("C16.IFF", f.short + "[BLOB]", f"BLOB: '{title}': two updates ({p0!r}, {f0!r}) then ({p1!r}, {f1!r}) raise the value events {chain}, expected {want}: the value changed without an event, so a listener keeps the stale {('format' if p0 == p1 else 'payload')}", fi=f, text=f"iff-blob:{title}", witness=f"setBLOBVector({p0!r}, {f0!r}); setBLOBVector({p1!r}, {f1!r})")
+            bad = True
     ctx.counters["C16.IFF:update cases"] = n
     if not bad:
         ctx.holds("C16.IFF", f.short, f"{n} update cases x 4 kinds: events are exactly the changes, each once, with (old, new) = (previous, current)", fi=f)
